@@ -45,6 +45,7 @@ class Gen:
         funcs = []
         self.ov_mods = [m for m in range(k - 1) if r.random() < 0.4]     # modules that define a non-exported overload pair ov<m>(int) / ov<m>(float)
         self.ov_uses = []
+        self.st_mods = [m for m in range(k - 1) if r.random() < 0.35]     # modules that define a structure S<m> and functions taking / returning it (and a float2)
         for i in range(n):
             callees = [j for j in range(i) if r.random() < 0.5]
             body = [Decl("int", "t", B("+", B("*", V("a"), I(r.choice([2, 3, 5]))), V("b")))]
@@ -64,6 +65,16 @@ class Gen:
                     body.append(ES(A(V("t"), B("+", V("t"), Call("ov%d" % om, [V("b")])))))
                     body.append(ES(A(V("t"), B("+", V("t"), B(">", Call("ov%d" % om, [F("1.5")]), F("1.0"))))))
                     self.ov_uses.append((i, om))
+            # structure- and vector-typed signatures across modules: the value is built here, passed to / returned by functions of a lower module
+            for sm in self.st_mods:
+                if sm <= owner[i] and r.random() < 0.6:
+                    body.append(Decl("S%d" % sm, "s%d" % sm))
+                    body.append(ES(A(Mem(V("s%d" % sm), "a"), V("b"))))
+                    body.append(ES(A(Mem(V("s%d" % sm), "b"), F("1.5"))))
+                    body.append(ES(A(V("t"), B("+", V("t"), Call("use%d" % sm, [V("s%d" % sm)])))))
+                    body.append(ES(A(V("t"), B("+", V("t"), Call("use%d" % sm, [Call("mk%d" % sm, [V("a")])])))))
+                    body.append(ES(A(V("t"), B("+", V("t"), Call("vs%d" % sm, [Ctor("float2", [V("a"), F("0.5")])])))))
+                    self.ov_uses.append((i, sm))
             body.append(Ret(V("t")))
             funcs.append((i, callees, Func("F%d" % i, [Arg("int", "a"), Arg("int", "b")], "int", Block(body), export=True)))
         return funcs, owner, globs, k
@@ -74,7 +85,7 @@ class Gen:
         owner = list(range(k))
         globs = {m: ["g%d" % m] if r.random() < 0.5 else [] for m in range(k)}
         funcs = []
-        self.ov_mods, self.ov_uses = [], []
+        self.ov_mods, self.ov_uses, self.st_mods = [], [], []
         for i in range(k):
             callees = sorted(j for (a, j) in edges if a == i)
             body = [Decl("int", "t", B("+", B("*", V("a"), I(r.choice([2, 3, 5]))), V("b")))]
@@ -118,11 +129,20 @@ class Gen:
                 return []
             return [Func("ov%d" % m, [Arg("int", "a")], "int", Block([Ret(B("+", B("*", V("a"), I(2)), I(m + 1)))])),
                     Func("ov%d" % m, [Arg("float", "a")], "float", Block([Ret(B("*", V("a"), F("0.5")))]))]
+        def structs(m):
+            if m not in getattr(self, "st_mods", []):
+                return [], []
+            S = "S%d" % m
+            return ([Struct(S, [{"t": "int", "n": "a"}, {"t": "float", "n": "b"}])],
+                    [Func("mk%d" % m, [Arg("int", "a")], S, Block([Decl(S, "r"), ES(A(Mem(V("r"), "a"), B("+", V("a"), I(m + 2)))), ES(A(Mem(V("r"), "b"), F("2.5"))), Ret(V("r"))])),
+                     Func("use%d" % m, [Arg(S, "s")], "int", Block([Ret(B("+", B("*", Mem(V("s"), "a"), I(3)), B(">", Mem(V("s"), "b"), F("2.0"))))])),
+                     Func("vs%d" % m, [Arg("float2", "v")], "int", Block([Ret(B(">", B("+", Idx(V("v"), I(0)), Idx(V("v"), I(1))), F("2.0")))]))])
         for m in range(k):
-            items = [Global("int", g) for g in globs[m]] + overloads(m) + [f for i, c, f in funcs if owner[i] == m]
+            items = structs(m)[0] + [Global("int", g) for g in globs[m]] + overloads(m) + structs(m)[1] + [f for i, c, f in funcs if owner[i] == m]
             text, _ = nslgen.render(Module(items), "canonical", self.rng)
             mods["m%d" % m] = "".join('import "m%d";\n' % j for j in sorted(imports[m])) + text
-        single_items = [Global("int", g) for m in range(k) for g in globs[m]] + [f for m in range(k) for f in overloads(m)] + [f for _, _, f in funcs]
+        single_items = [x for m in range(k) for x in structs(m)[0]] + [Global("int", g) for m in range(k) for g in globs[m]] + [f for m in range(k) for f in overloads(m)] + \
+                       [f for m in range(k) for f in structs(m)[1]] + [f for _, _, f in funcs]
         single, _ = nslgen.render(Module(single_items), "canonical", self.rng)
         return mods, imports, single
 
